@@ -149,6 +149,25 @@ def run_real(case):
         except AssertionError:
             colls.append(-1)
     out["resolved"] = resolved
+    # negative indices into the concat dataset: -1 .. -(total+2)
+    total = len(s2.dataset)
+    negs = []
+    for k in range(total + 2):
+        try:
+            d, it = s2.dataset[-(k + 1)]
+            negs.append([d, it[1]])
+        except ValueError:
+            negs.append("ValueError")
+    out["neg"] = negs
+    # DataLoader level (a sample of the cases): the loader built by get_data_loader yields exactly these batches, each collated
+    # by the collator of the dataset it was drawn from
+    if case.get("dl_leg"):
+        try:
+            got = [(tag, [list(x) for x in data]) for tag, data in s2.get_data_loader(num_workers=0)]
+            exp = [(s2.dataset[b[0]][0], [list(s2.dataset[i][1]) for i in b]) for b in batches]
+            out["_dl_ok"] = (got == exp)
+        except Exception as e:
+            out["_dl_ok"] = f"{type(e).__name__}: {e}"
     out["_colls"] = colls
     out["_tags"] = [[s2.dataset[i][1][0] for i in b] for b in batches]
     return out
@@ -300,6 +319,9 @@ def oracle(case, real, which):
         if gb != eb:
             return Failure("interleaved:batches", f"main batches differ for {tag}", case, eb, gb)
         return None
+    if which == "C05" and real.get("_dl_ok") not in (None, True):
+        return Failure("interleaved:dataloader", f"the DataLoader built by get_data_loader does not yield the batch sampler's batches collated by "
+                       f"their own dataset's collator for {tag}", case, True, real.get("_dl_ok"))
     if which == "C05":
         if real["evs"] != exp:
             # only report when the side part differs (main part is C04's business)
@@ -423,6 +445,8 @@ def gen_case(rng, big=False, force_start=None):
         else:
             case["sk"], case["sv"] = "s", e0 * spe + (rng.choice([1, B, B + 1]) if rng.random() < 0.15 else 0)
     n_epochs = 16
+    if rng.random() < 0.15:
+        case["dl_leg"] = True
     case["main"] = [rng.sample(range(mds), N) for _ in range(n_epochs)]
     case["fuel"] = FUEL
     return case
@@ -565,7 +589,7 @@ class C04(InterleavedCheck):
         if "evs" not in ans:
             return ans
         mds = case["mds"]
-        return {"ctor": ans["ctor"], "start": ans["start"], "iter": ans["iter"], "rest": ans["rest"], "repeat_ok": ans.get("repeat_ok"),
+        return {"ctor": ans["ctor"], "start": ans["start"], "iter": ans["iter"], "rest": ans["rest"], "repeat_ok": ans.get("repeat_ok"), "neg0": (ans.get("neg") or [None])[0],
                 "main_evs": [e for e in ans["evs"] if e[0] == 2 or e[1] < mds],
                 "main_batches": [b for b in ans["batches"] if b and b[0] < mds],
                 "n_batches_cut_ok": all(all((i < mds) == (b[0] < mds) for i in b) for b in ans["batches"])}
